@@ -533,7 +533,8 @@ def gen_burst_case(rng, deb=None):
                 if f.endswith("hist.log"):
                     s.append(f, "l%d\n" % n)
                 else:
-                    s.put(f, "content %d %s" % (n, "x" * rng.randint(0, 20)))
+                    # (a file saved EMPTY is a file like any other: it gets its - empty - version)
+                    s.put(f, "" if rng.random() < 0.1 else "content %d %s" % (n, "x" * rng.randint(0, 20)))
                 s.write(3, f)
                 if rng.random() < 0.3:
                     s.tick(rng.choice([0, 1]))
@@ -692,17 +693,24 @@ def gen_history_case(rng):
     s = Script()
     # half of the cases: the history path lies inside a project (history flag and project offset in one entry)
     inproj = rng.random() < 0.5
-    setup_world(s, base_cfg(deb=rng.choice([0, 1]), history=[WATCH + "/hist.log", WATCH + "/proj/logs"]))
+    setup_world(s, base_cfg(deb=rng.choice([0, 1]), history=[WATCH + "/hist.log", WATCH + "/proj/logs"] + [WATCH + "/hist.log" + x for x in (".tmp", ".1", "~", ".bak")]))
     s.start()
     H = WATCH + ("/proj/logs/a.log" if inproj else "/hist.log")
     s.put(H, "")
+    # a second history file next to it whose name extends the first one's (rotated logs, editors' side files): each has
+    # its own remembered position
+    H2 = H + rng.choice([".tmp", ".1", "~", ".bak"])
+    two = rng.random() < 0.4
+    if two:
+        s.put(H2, "")
     n = 0
     for _ in range(rng.randint(4, 25)):
         r = rng.random()
         if r < 0.45:
             n += 1
-            s.append(H, "".join(rng.choice("abc\n") for _ in range(rng.choice([0, 1, 10, 60]))))
-            s.write(9, H)
+            T = H2 if two and rng.random() < 0.5 else H
+            s.append(T, "".join(rng.choice("abc\n") for _ in range(rng.choice([0, 1, 10, 60]))))
+            s.write(9, T)
         elif r < 0.6:
             s.tick(rng.choice([0, 1, 2]))
         elif r < 0.9:
@@ -713,7 +721,7 @@ def gen_history_case(rng):
     s.tick(2)
     s.timeout()
     s.dump()
-    return s.text(), {"history_rels": ["hist.log", "proj/logs/a.log"]}
+    return s.text(), {"history_rels": ["hist.log", "proj/logs/a.log"] + ([H2[len(WATCH) + 1:]] if two else [])}
 
 
 def gen_project_case(rng):
